@@ -7,6 +7,7 @@ import (
 
 	"verifharness/fw"
 	"verifharness/gen"
+	"verifharness/mon"
 	"verifharness/model"
 )
 
@@ -74,11 +75,41 @@ func (p *c09) Init(tier string, seed int64) {
 	p.nRand = p.pick(5000, 100000)
 }
 
-func (p *c09) N() int { return p.nEnum + p.nRand }
+func (p *c09) N() int { return p.nEnum + p.nRand + len(c09Long) }
+
+// c09Long: chains of many templates ("of any length"): every level overrides the block and calls parent(), every
+// tenth level leaves it alone, every seventh names its parent by an expression.
+var c09Long = []int{40, 300, 1000}
+
+func c09LongChain(L int) (map[string]string, string, string) {
+	src := map[string]string{"t0": "R[{% block b %}0{% endblock %}|{% block c %}c0{% endblock %}]"}
+	want := "0"
+	for k := 1; k <= L; k++ {
+		parent := fmt.Sprintf("'t%d'", k-1)
+		if k%7 == 0 {
+			parent = fmt.Sprintf("'t' ~ %d", k-1)
+		}
+		body := ""
+		if k%10 != 0 {
+			body = fmt.Sprintf("{%% block b %%}%d({{ parent() }}){%% endblock %%}", k)
+			want = fmt.Sprintf("%d(%s)", k, want)
+		}
+		src[fmt.Sprintf("t%d", k)] = fmt.Sprintf("{%% extends %s %%}IGNORED%s", parent, body)
+	}
+	return src, fmt.Sprintf("t%d", L), "R[" + want + "|c0]"
+}
 
 func blockBody(tag string, withParent bool, extra ...gen.Node) []gen.Node {
 	out := []gen.Node{tx("<" + tag + ":"), pr(&gen.ECall{Fn: "fn", Args: []gen.Expr{str(tag)}})}
 	if withParent {
+		switch len(tag) % 3 {
+		case 1:
+			// parent() called from inside a capture: it is still this block's parent
+			out = append(out, &gen.NSetCap{Name: "pcap", Body: []gen.Node{tx("cap("), pr(&gen.EParent{}), tx(")")}}, tx("^["), pr(nm("pcap")), tx("]"))
+		case 2:
+			// ... and from inside a filter section
+			out = append(out, tx("^|"), &gen.NFilter{Filters: []string{"b1"}, Body: []gen.Node{tx("f("), pr(&gen.EParent{}), tx(")")}}, tx("|"))
+		}
 		out = append(out, tx("^("), pr(&gen.EParent{}), tx(")"))
 		if len(tag)%2 == 0 || strings.HasPrefix(tag, "ublk") {
 			// once more: what the first call did to the state must not change where the second one goes
@@ -294,6 +325,9 @@ func (p *c09) build(i int) (*Program, string, bool) {
 }
 
 func (p *c09) Describe(i int) interface{} {
+	if i >= p.nEnum+p.nRand {
+		return map[string]interface{}{"kind": "long chain", "templates": c09Long[i-p.nEnum-p.nRand] + 1}
+	}
 	prog, sig, _ := p.build(i)
 	d := prog.describe()
 	d["configuration"] = sig
@@ -301,6 +335,19 @@ func (p *c09) Describe(i int) interface{} {
 }
 
 func (p *c09) Run(i int) (res fw.Result) {
+	if i >= p.nEnum+p.nRand {
+		L := c09Long[i-p.nEnum-p.nRand]
+		src, main, want := c09LongChain(L)
+		env, _ := mon.NewCoreEnv(src)
+		out, err, pan, steps := execNoPanic(env, main, nil, 0)
+		res.UniqueNT = 1
+		res.AddObs("exec_steps", steps)
+		res.AddClass("long-chain")
+		if pan != nil || err != nil || out != want {
+			res.Fail("output", fmt.Sprintf("c09:long:%d", L), fmt.Sprintf("a chain of %d templates renders %q (error %v, panic %v), want %q", L+1, clip(out, 200), err, pan, clip(want, 200)), nil)
+		}
+		return
+	}
 	prog, sig, nt := p.build(i)
 	if strings.Contains(sig, "/use5") {
 		p.runAliasChain(&res, prog, sig)
